@@ -144,6 +144,8 @@ class CSSFontFaceRule(cssrule.CSSRule):
             # (read by the parser of the containing sheet or rule)
             self._accepted = ok
             if ok:
+                # literal keyword (preference defaultAtKeyword)
+                self._keyword = self._tokenvalue(attoken)
                 # contains probably comments only (upto ``{``)
                 self._setSeq(newseq)
                 self.style = newStyle
